@@ -542,6 +542,9 @@ func TestC09(t *testing.T) {
 		{"error", func(b *mocker.Builder) { b.Func(PErr).Return(0).When(nil).Return(1) }, func() int { return PErr(nil) }, func() int { return PErr(&MyErr{1}) }},
 		{"func", func(b *mocker.Builder) { b.Func(PFunc).Return(0).When(nil).Return(1) }, func() int { return PFunc(nil) }, func() int { return PFunc(theFunc) }},
 		{"[]int", func(b *mocker.Builder) { b.Func(PSlice).Return(0).When(nil).Return(1) }, func() int { return PSlice(nil) }, func() int { return PSlice([]int{1}) }},
+		// for an interface parameter nil is the nil interface: a typed nil pointer inside the interface is another value
+		{"error/typed-nil-argument", func(b *mocker.Builder) { b.Func(PErr).Return(0).When(nil).Return(1) }, func() int { return PErr(nil) }, func() int { return PErr((*MyErr)(nil)) }},
+		{"error/typed-nil-condition", func(b *mocker.Builder) { b.Func(PErr).Return(0).When((*MyErr)(nil)).Return(1) }, func() int { return PErr((*MyErr)(nil)) }, func() int { return PErr(nil) }},
 		// nil is the typed zero value, not "anything empty": an empty non-nil slice or map is another value (and vice versa)
 		{"[]int/empty-argument", func(b *mocker.Builder) { b.Func(PSlice).Return(0).When(nil).Return(1) }, func() int { return PSlice(nil) }, func() int { return PSlice([]int{}) }},
 		{"[]int/empty-condition", func(b *mocker.Builder) { b.Func(PSlice).Return(0).When([]int{}).Return(1) }, func() int { return PSlice([]int{}) }, func() int { return PSlice(nil) }},
